@@ -58,6 +58,9 @@ void *pool_build(uint64_t seed) {
     for (const char *n : NUMS) p->nums.push_back(ST::string::from_validated(n, std::strlen(n)));
     p->strs.push_back(ST::string::from_validated("the quick brown fox jumps over the lazy dog, the end", 52));
     p->strs.push_back(ST::string::from_validated("a,b,,c;d e\tf", 12));
+    // homogeneous text: every character 4 (3, 2) UTF-8 bytes - the extreme expansion ratios between the encodings
+    for (unsigned w = 0; w < 3; w++) { std::u32string sc; for (unsigned k = 0; k < 90; k++) sc += (char32_t)(w == 0 ? 0x10000 + r.below(0x100000) : w == 1 ? 0x800 + r.below(0xD000) : 0xA0 + r.below(0x700));
+        ST::string hs = ST::string::from_utf32(sc.data(), sc.size()); p->strs.push_back(hs); p->b8.push_back(hs.to_utf8()); p->b16.push_back(hs.to_utf16()); p->b32.push_back(hs.to_utf32()); p->bw.push_back(hs.to_wchar()); }
     // repetitive text: many matches of the same needle, many pieces, many tokens (random text has each character about once in a hundred)
     { std::string rep; for (int i = 0; i < 24; i++) rep += "the quick brown fox, "; p->strs.push_back(ST::string::from_validated(rep.data(), rep.size())); }
     { std::string rep; for (int i = 0; i < 40; i++) rep += (i % 3) ? "ab;c d," : "\xC3\xA9e e,"; p->strs.push_back(ST::string::from_validated(rep.data(), rep.size())); }
